@@ -85,9 +85,10 @@ def parse_terse(text, harnesses):
                     r["n_failed"] = int(mm.group(1)); r["n_checks"] = int(mm.group(2))
                     mu = re.search(r"(\d+) unreachable", mm.group(3) or "")
                     r["n_unreach"] = int(mu.group(1)) if mu else 0
-                mm = re.match(r"^ \*\* (\d+) of (\d+) cover properties satisfied", x)
+                mm = re.match(r"^ \*\* (\d+) of (\d+) cover properties satisfied(?: \((\d+) unreachable\))?", x)
                 if mm and r is not None:
-                    r["covers_sat"] = int(mm.group(1)); r["covers_total"] = int(mm.group(2))
+                    # covers that sit in code unreachable for this instantiation (constant harness parameters) do not count
+                    r["covers_sat"] = int(mm.group(1)); r["covers_total"] = int(mm.group(2)) - int(mm.group(3) or 0)
                 mm = re.match(r"^Failed Checks: (.*)$", x)
                 if mm and r is not None:
                     r["failed_checks"].append(mm.group(1).strip())
